@@ -120,12 +120,18 @@ fn gen_nodes(lang: &'static Lang, rng: &mut Rng, knobs: &Knobs, depth: usize, co
                     (Form::BlockMulti { deco: false, .. }, true) => Some(format!("\n{}   ", start.indent)),
                     _ => None,
                 };
-                let tag = if knobs.rich_tags {
+                let mut tag = if knobs.rich_tags {
                     let named = rng.chance(2, 3);
                     rich_tag(rng, if named { Some(&name) } else { None }, nl_ws.as_deref())
                 } else {
                     TagSrc::simple(&[("name", name.as_str())])
                 };
+                if knobs.echo {
+                    // the content observation point: a script that returns its content argument verbatim
+                    let d = crate::props::mix::scripts_dir();
+                    tag.attrs.push(Attr { ws: " ".into(), name: "check-lua".into(), val: Some((String::new(), String::new(), AVal::Dq(format!("{d}/echo.lua")))) });
+                    tag.attrs.push(Attr { ws: " ".into(), name: "check-lua-pattern".into(), val: Some((String::new(), String::new(), AVal::Dq("[\\s\\S]*".into()))) });
+                }
                 let mut body = Vec::new();
                 if depth < knobs.max_depth && rng.chance(1, 2) {
                     body = gen_nodes(lang, rng, knobs, depth + 1, counter, budget);
@@ -291,7 +297,7 @@ pub fn generate(mode: Mode, rng: &mut Rng, idx: usize, _tier: Tier) -> CaseOut {
     let out = imp::run(&spec);
     let (fcs, comments, _) = fcases(&spec);
     let exp_coq = if damage.is_some() { "None".to_string() } else { format!("(Some [{}])", exp.join("; ")) };
-    let coq = format!("(check_list [{}] {} {})", fcs.join("; "), emit::lobs(&out.list), exp_coq);
+    let mut coq = format!("(check_list [{}] {} {})", fcs.join("; "), emit::lobs(&out.list), exp_coq);
     // by-construction comment spans vs the spans the grammar produced (C03's grammar-level claim)
     let main_idx = spec.files.iter().position(|(p, _)| *p == path).unwrap();
     let mut recorded: Vec<(usize, usize)> = comments[main_idx].iter().map(|c| (c.lo, c.hi)).collect();
@@ -300,6 +306,17 @@ pub fn generate(mode: Mode, rng: &mut Rng, idx: usize, _tier: Tier) -> CaseOut {
     planned.sort();
     if mode != Mode::Damaged && recorded != planned {
         tags.push("spans:differ".into());
+    }
+    if mode == Mode::Blocks {
+        // contents: echoed by the script vs the text between the two comments, by construction
+        let c4 = |f: &str, l: usize, c: usize, t: &str| format!("({}, {}, {}, {})", cstr(f), l, c, cstr(t));
+        let exp_c: Vec<String> = r.blocks.iter().enumerate().filter(|(_, b)| b.attrs.iter().any(|(k, _)| k == "check-lua")).map(|(k, b)| c4(&path, b.ts.0, b.ts.1, content_of(&r, k))).collect();
+        let obs_c: Vec<String> = match &out.run {
+            Outcome::Ok((ds, _)) => ds.iter().filter(|d| d.code == "check-lua").map(|d| c4(&d.file, d.sl, d.sc, d.data.get(1).map(|s| s.as_str()).unwrap_or(""))).collect(),
+            _ => vec![],
+        };
+        coq = format!("(check_blocks [{}] {} {} [{}] [{}] {})", fcs.join("; "), emit::lobs(&out.list), exp_coq, obs_c.join("; "), exp_c.join("; "), cbool(recorded == planned));
+        tags.push(format!("contents:{}", obs_c.len().min(6)));
     }
     if let Outcome::Err(_, _) = &out.list {
         tags.push("outcome:error".into());
